@@ -108,6 +108,17 @@ def decode_value(v: Any, objs: dict) -> Any:
     if '$np' in v:
         import numpy as np
         return np.dtype(v['$np'][0]).type(v['$np'][1])
+    if '$rawarr' in v:
+        import numpy as np
+        a = v['$rawarr']
+        n = 1
+        for k in a['shape']:
+            n *= k
+        if a['dtype'] == 'object':
+            return np.array([object() for _ in range(n)], dtype=object).reshape(a['shape'])
+        if a['dtype'].startswith('<U'):
+            return np.array(['abc'] * n, dtype=a['dtype']).reshape(a['shape'])
+        return (np.arange(n) % 2).astype(a['dtype']).reshape(a['shape'])
     if '$datadict' in v:
         return {k: decode_value(x, objs) for k, x in v['$datadict'].items()}
     if '$struct' in v:
